@@ -225,4 +225,4 @@ def run(eng, rep) -> None:
             okm = any(mentions(eng, f, x, fname_roots | exc_names) for x in list(n.args) + [k.value for k in n.keywords])
             rep.check(okm, "R20.3", f.file, f.qual, norm(n, 90), "error mentions the module file",
                       "failure while importing a module is reported without naming the module/file (on some path neither the message nor the cited node carries the module's file name)")
-    rep.floor("R20.3", "error constructions in the import callback", n_err, 3)
+    rep.floor("R20.3", "error constructions in the import callback", n_err, 1)
